@@ -309,6 +309,41 @@ def _selects_named_columns(helper) -> bool:
     return True
 
 
+
+def _s3_renaming_maps(program, res, rm):
+    """compose names the composite's row columns by looking each probe *cell* up in a map built from the pushed-through probe: a map that is
+    consulted with cells (`m.get(v, v)` with v drawn from a control table's column) has to be keyed by cells and valued by column names.  The
+    other way round every look-up misses unless names and cells coincide, and the composite keeps the first map's column names."""
+    comp = rm.methods.get("compose")
+    if comp is None:
+        raise AnalysisError("anchor vanished: RecordMap.compose")
+    n_maps = 0
+    for st in ast.walk(comp.node):
+        if not (isinstance(st, ast.Assign) and isinstance(st.value, ast.DictComp) and isinstance(st.targets[0], ast.Name)):
+            continue
+        dc = st.value
+        gen = dc.generators[0]
+        if not (isinstance(gen.target, ast.Name) and unparse(gen.iter).endswith(".columns")):
+            continue
+        name = st.targets[0].id
+        used_with_cells = [c for c in ast.walk(comp.node) if isinstance(c, ast.Call) and isinstance(c.func, ast.Attribute) and c.func.attr == "get"
+                           and isinstance(c.func.value, ast.Name) and c.func.value.id == name and len(c.args) == 2 and unparse(c.args[0]) == unparse(c.args[1])]
+        if not used_with_cells:
+            continue
+        n_maps += 1
+        col = gen.target.id
+        key_is_cell = any(isinstance(x, ast.Subscript) and any(isinstance(y, ast.Name) and y.id == col for y in ast.walk(x.slice)) for x in ast.walk(dc.key))
+        val_is_name = isinstance(dc.value, ast.Name) and dc.value.id == col
+        if key_is_cell and val_is_name:
+            res.ok("C17-S3", f"compose: `{name}` maps each probe cell to the column it landed in and is consulted with cells")
+        else:
+            res.fail_at("C17-S3", comp, f"renaming-map-inverted:{name}",
+                        f"`{unparse(st)[:90]}` is consulted with cells (`{unparse(used_with_cells[0])}`) but is keyed by `{unparse(dc.key)}`: no cell is found unless it equals a "
+                        f"column name, so the composite keeps the first map's row-column names and `a >> b` / compose disagree with applying the two maps in turn", st)
+    if n_maps == 0:
+        res.ok("C17-S3", "compose: no cell-to-column renaming map is built from a dictionary comprehension")
+
+
 def run(program, res, tier):
     res.rule("C17-S11", "SQL record conversions emit GROUP BY / ORDER BY only with terms")
     sql_clause_terms_rule(program, res)
@@ -335,6 +370,7 @@ def run(program, res, tier):
     from ..report import Relabel as _Relabel
     _c08._s7_record_transform_columns(program, _Relabel(res, {"*": "C17-S8"}))
     rm = program.cls("cdata", "RecordMap")
+    _s3_renaming_maps(program, res, rm)
     # ---- S1
     inv = rm.methods.get("inverse")
     if inv is None:
